@@ -45,8 +45,25 @@ where
         // poll can be shutdown already
         match self.pool.lock() {
             Ok(pool) => {
+                #[cfg(rs_store_verif)]
+                let vsid = crate::verif::store_id(&self.metrics);
+                #[cfg(rs_store_verif)]
+                if pool.is_none() {
+                    crate::verif::pt("task.skip", vsid, 0, None, 0);
+                }
                 if let Some(pool) = pool.as_ref() {
+                    #[cfg(rs_store_verif)]
+                    let vtid = crate::verif::next_id();
+                    #[cfg(rs_store_verif)]
+                    crate::verif::pt("task.submit", vsid, vtid, None, 0);
                     pool.execute(move || {
+                        #[cfg(rs_store_verif)]
+                        crate::verif::pt("task.start", vsid, vtid, None, 0);
+                        #[cfg(rs_store_verif)]
+                        let _vguard = crate::verif::TaskGuard {
+                            store: vsid,
+                            tid: vtid,
+                        };
                         thunk(dispatcher);
                     })
                 }
@@ -60,8 +77,25 @@ where
     fn dispatch_task(&self, task: Box<dyn FnOnce() + Send>) {
         match self.pool.lock() {
             Ok(pool) => {
+                #[cfg(rs_store_verif)]
+                let vsid = crate::verif::store_id(&self.metrics);
+                #[cfg(rs_store_verif)]
+                if pool.is_none() {
+                    crate::verif::pt("task.skip", vsid, 0, None, 0);
+                }
                 if let Some(pool) = pool.as_ref() {
+                    #[cfg(rs_store_verif)]
+                    let vtid = crate::verif::next_id();
+                    #[cfg(rs_store_verif)]
+                    crate::verif::pt("task.submit", vsid, vtid, None, 1);
                     pool.execute(move || {
+                        #[cfg(rs_store_verif)]
+                        crate::verif::pt("task.start", vsid, vtid, None, 1);
+                        #[cfg(rs_store_verif)]
+                        let _vguard = crate::verif::TaskGuard {
+                            store: vsid,
+                            tid: vtid,
+                        };
                         task();
                     })
                 }
